@@ -76,7 +76,7 @@ let hist fuel (kbx : Sexp.t) (ops : Sexp.t list) : string * Sexp.t * Sexp.t =
                 L [A "built"; sexp_of_goal g; varid ()]
               | L [A "ask"; A q] ->
                 let (t, nd) = slot (int_of_string q) in
-                let (((nd', sol), _), w1) = unres (next kb fuel nd !w) in
+                let (((nd', sol), _), w1) = unres (next kb fuel fuel nd !w) in
                 w := w1;
                 Hashtbl.replace slots (int_of_string q) (t, nd');
                 (match sol with
